@@ -16,7 +16,7 @@
 //! overflow panic in the checked profile, an absurd length otherwise) and poisoned for blocks of 4k + 3 words (code that
 //! reads the word before the block as data sees garbage); behind the block 64 poisoned bytes.  Fresh memory is filled with
 //! 0xCD, freed memory with 0xDD and kept in a quarantine ring (checked for writes when it leaves the ring), `realloc` always
-//! moves, a request above 2^40 bytes returns null (the library's own out-of-memory path runs), a second release of a block
+//! moves, a request above 2^30 bytes returns null (the library's own out-of-memory path runs), a second release of a block
 //! is recorded (flag bit 0) and NOT performed.
 use dashu_base::{BitTest, DivRem, Gcd, PowerOfTwo, SquareRoot, UnsignedAbs};
 use dashu_int::verif_hooks::repr_layout_ibig;
@@ -30,7 +30,7 @@ use std::sync::atomic::{AtomicBool, AtomicIsize, AtomicUsize, Ordering::SeqCst};
 // guard + counting allocator
 // ------------------------------------------------------------------------------------------------
 const PAD: usize = 64;
-const ALLOC_LIMIT: usize = 1 << 40;
+const ALLOC_LIMIT: usize = 1 << 30;
 const FRONT_WORDS: usize = 4; // words 4..8 of the front pad, directly before the block
 const MAGIC_LIVE: usize = 0x5afe_b10c_a11c_0de5;
 const MAGIC_DEAD: usize = 0xdead_b10c_dead_b10c;
